@@ -13,7 +13,8 @@ DECIDED = ["R08c properties are removed with the element",
            "R09a missing-key error only for explicitly named elements; keys select values_by_keys (DOM)",
            "R09b insert_or_replace: replace-in-place on found key, append otherwise (MUST)",
            "R09c remove_value removes exactly the found pair in place (no swap)",
-           "R09d insert_or_replace reports None only after an insertion and Some(old) only after a replacement (DOM)"]
+           "R09d insert_or_replace reports None only after an insertion and Some(old) only after a replacement (DOM)",
+           "R09e DbF64 equality / order / hashes agree (total_cmp and to_bits, no IEEE comparison of the raw floats)"]
 UNDECIDED = ["order and content of returned pairs over histories (needs execution)"]
 
 KV = "agdb::db::db_key_value::DbKeyValues::"
@@ -57,6 +58,34 @@ def insert_or_replace_contract_rule(ctx, rule="R09d"):
     ctx.ob(rule, "insert_or_replace:Some=>replaced", ok_s,
            "every Ok(Some(old)) lies behind replace" if ok_s else
            "DbKeyValues::insert_or_replace can return Ok(Some(_)) without replacing the stored pair", b.where)
+
+
+def float_key_rule(ctx, rule="R09e"):
+    """Keys (and indexed values) are DbValues; a float key is a DbF64, which is `Eq + Ord + Hash`: the three must agree, or a
+    key stored under NaN can never be found again and 0.0 / -0.0 share one slot in a map that hashes them differently.
+    Equality and order both go through f64::total_cmp (never the IEEE `==` / `<` on the raw floats), the hashes through
+    to_bits."""
+    fa = ctx.facts
+    F64 = "agdb::db::db_f64::DbF64"
+    want = {
+        "<%s as std::cmp::PartialEq>::eq" % F64: ("total_cmp", "cmp"),
+        "<%s as std::cmp::Ord>::cmp" % F64: ("total_cmp",),
+        "<%s as std::cmp::PartialOrd>::partial_cmp" % F64: ("total_cmp", "cmp"),
+        "<%s as std::hash::Hash>::hash" % F64: ("to_bits",),
+        "<%s as agdb::utilities::stable_hash::StableHash>::stable_hash" % F64: ("to_bits",),
+    }
+    for path, via in want.items():
+        b = ctx.anchor(rule, path)
+        if not b:
+            continue
+        names = {(cfg.callee(t) or "").split("::")[-1] for i, t in cfg.calls(b)}
+        raw = [st["r"]["op"] for bi, st in cfg.assigns(b) if st["r"]["k"] == "bin" and st["r"]["op"] in ("Eq", "Ne", "Lt", "Le", "Gt", "Ge") and
+               any(cfg.op_place(o) and b.local_ty(cfg.op_place(o)[0]) in ("f64", "&f64") for o in (st["r"]["a"], st["r"]["b"]))]
+        ok = bool(names & set(via)) and not raw
+        ctx.ob(rule, "DbF64::%s" % path.split("::")[-1], ok,
+               "through %s, no IEEE comparison of the raw floats" % sorted(names & set(via)) if ok else
+               "`%s` %s: DbF64's equality, order and hashes no longer agree (NaN keys cannot be found, 0.0 / -0.0 collide)" % (
+                   path, ("compares the raw f64 with %s" % raw) if raw else ("does not go through %s" % (via,))), b.where)
 
 
 def run(ctx):
@@ -140,4 +169,5 @@ def run(ctx):
                "found key => DbVec::replace at its position (no push); otherwise push; new element => insert_value" if ok else
                "insert_or_replace no longer replaces an existing key in place / appends a new key", b.where)
     insert_or_replace_contract_rule(ctx)
+    float_key_rule(ctx)
     return 0
